@@ -4,12 +4,14 @@
 EXTENDS Naturals, TLC
 L == INSTANCE DiffOptLemma
 D == INSTANCE DiffApply
-V == {"", "x", "y", <<>>, <<"d">>}
-Acts == {L!None} \cup {L!Add(b) : b \in V} \cup {L!Rem(a) : a \in V} \cup {L!Edit(a, b) : a \in V, b \in V}
-ASSUME \A none \in {"", <<>>} : \A a \in V, b \in V :
-            /\ L!FromTuple(a, b, none) = D!FromTuple(a, b, none)
-            /\ \A act \in Acts : /\ L!ApplyOpt(act, a, none) = D!ApplyOpt(act, a, none)
-                                 /\ L!ActConsistent(act, a, none) = D!ActConsistent(act, a, none)
+Acts(V) == {L!None} \cup {L!Add(b) : b \in V} \cup {L!Rem(a) : a \in V} \cup {L!Edit(a, b) : a \in V, b \in V}
+Agree(V, none) ==
+    \A a \in V, b \in V :
+        /\ L!FromTuple(a, b, none) = D!FromTuple(a, b, none)
+        /\ \A act \in Acts(V) : /\ L!ApplyOpt(act, a, none) = D!ApplyOpt(act, a, none)
+                                /\ L!ActConsistent(act, a, none) = D!ActConsistent(act, a, none)
+ASSUME Agree({"", "x", "y"}, "")                     \* names
+ASSUME Agree({<<>>, <<"d">>, <<"e">>}, <<>>)         \* comments
 VARIABLE x
 Spec == x = 0 /\ [][x' = x]_x
 =============================================================================
